@@ -85,7 +85,18 @@ func Run(d *DAG, r *rand.Rand, o RunOpts) *Trace {
 	policy := cfg.Policy()
 	var in *Inst
 	if o.WarmReset {
-		in = warmedUp(r, cfg, policy, icfg)
+		var wp interface{}
+		func() {
+			defer func() { wp = recover() }()
+			in = warmedUp(r, cfg, policy, icfg)
+		}()
+		if wp != nil {
+			// the warm-up epoch (generated through a real instance) failed: the code under test refused an event it had built
+			// itself or raised its crit handler - a finding about the code, reported as a trace without blocks
+			t := &Trace{}
+			t.add(DEventRejected, "phase", "warm-up epoch of the warm-reset instance", "err", fmt.Sprint(wp))
+			return t
+		}
 	} else {
 		in = NewInst(cfg.Plans[0].Epoch, cfg.Plans[0].Validators(), policy, icfg)
 	}
